@@ -56,6 +56,7 @@ func (t *topology) Update(primaryNode string, secondaries ...string) {
 		for _, oldEndpoint := range t.endpoints {
 			if oldEndpoint.url == url {
 				// Take over the old endpoint
+				oldEndpoint.nodeType = secondary // it may have been the primary before
 				newEndpoints = append(newEndpoints, oldEndpoint)
 				found = true
 				break
